@@ -115,6 +115,19 @@ pub fn gen_spline_case<T: Flt>(rng: &mut Rng, o: &SplineOpts) -> (Spec1<T>, Labe
     let dclass = *rng.pick(&DataClass::ALL);
     let mut data = gen_data::<T>(rng, &shape, dclass, (-60, 60));
     let n_lanes: usize = lanes.iter().product();
+    // now and then the data imitate a special case: every lane an exact (as far as the axis
+    // values allow) polynomial of degree 0..3 in x
+    let mut dname: String = dclass.name().into();
+    if rng.chance(0.07) {
+        let deg = rng.below(4);
+        overlay_polynomial(rng, &x, &mut data, deg);
+        dname = format!("polynomial-deg{deg}");
+    }
+    // ... or all lanes are copies of lane 0 (handed over as a broadcast view where views are used)
+    let broadcast = n_lanes > 1 && rng.chance(0.06);
+    if broadcast {
+        crate::dynapi::equalise_lanes(&mut data, 1);
+    }
     let (d1, d2) = deriv_scales(&x, &data);
 
     let mut bshape = vec![1usize];
@@ -164,7 +177,7 @@ pub fn gen_spline_case<T: Flt>(rng: &mut Rng, o: &SplineOpts) -> (Spec1<T>, Labe
         } else {
             class.name().into()
         },
-        data: dclass.name().into(),
+        data: dname,
         n_class: n_class(n, 3),
         boundary: bname,
         lanes: format!("{:?}", lanes),
@@ -184,7 +197,62 @@ pub fn gen_spline_case<T: Flt>(rng: &mut Rng, o: &SplineOpts) -> (Spec1<T>, Labe
     );
     spec.dynamic = rng.chance(0.2);
     random_layouts1(rng, &mut spec);
+    if broadcast {
+        spec.broadcast_lanes = true;
+        spec.sto = if rng.chance(0.5) { StoCombo::VV } else { StoCombo::VO };
+        if spec.x.is_none() {
+            spec.sto = StoCombo::VO;
+        }
+    }
     (spec, labels)
+}
+
+/// replace about a fifth of the samples by special values: -0.0, +0.0, the infinities, NaN and
+/// the largest finite magnitudes (for the bitwise monitors; the value monitors keep finite data)
+pub fn sprinkle_specials<T: Flt>(rng: &mut Rng, data: &mut ArrayD<T>) -> usize {
+    let specials = [
+        T::of(-0.0),
+        T::of(0.0),
+        T::of(f64::INFINITY),
+        T::of(f64::NEG_INFINITY),
+        T::nan(),
+        T::of(if T::MANT == 23 { f32::MAX as f64 } else { f64::MAX }),
+        T::of(if T::MANT == 23 { f32::MIN as f64 } else { f64::MIN }),
+    ];
+    let mut n = 0;
+    for v in data.iter_mut() {
+        if rng.chance(0.2) {
+            // -0.0 twice as often: the only special value ordinary data contain
+            *v = if rng.chance(0.3) { specials[0] } else { specials[rng.below(specials.len())] };
+            n += 1;
+        }
+    }
+    n
+}
+
+/// lane l becomes c0 + c1 x + .. + c_deg x^deg with small dyadic coefficients (evaluated in f64,
+/// rounded to T; exact whenever the axis values are small dyadic numbers)
+pub fn overlay_polynomial<T: Flt>(rng: &mut Rng, x: &[T], data: &mut ArrayD<T>, deg: usize) {
+    let n = x.len();
+    let lanes = data.len() / n.max(1);
+    let scale = x.iter().fold(0.0f64, |m, v| m.max(v.f().abs())).max(1e-300);
+    let flat: Vec<T> = (0..n * lanes)
+        .map(|idx| {
+            let (row, lane) = (idx / lanes.max(1), idx % lanes.max(1));
+            let mut r = Rng::new(0x9e37 ^ (lane as u64).wrapping_mul(0x1234_5678_9abc_def1) ^ deg as u64);
+            let c: Vec<f64> = (0..=deg).map(|_| (r.irange(-16, 16) as f64 + if r.chance(0.5) { 0.5 } else { 0.0 }) / 4.0).collect();
+            // the polynomial in the scaled variable t = x / 2^e (so that values stay moderate)
+            let e = scale.log2().ceil();
+            let t = x[row].f() / 2f64.powf(e);
+            let mut v = 0.0;
+            for k in (0..=deg).rev() {
+                v = v * t + c[k];
+            }
+            T::of(if deg >= 1 && c[deg] == 0.0 { v + t } else { v })
+        })
+        .collect();
+    let _ = rng.next_u64();
+    *data = ArrayD::from_shape_vec(data.raw_dim(), flat).unwrap();
 }
 
 /// with probability 0.3 the data (and an explicit axis) are stored with a random memory
@@ -290,9 +358,13 @@ pub fn gen_linear_case<T: Flt>(rng: &mut Rng, o: &LinearOpts) -> (Spec1<T>, Labe
     shape.extend(&lanes);
     let dclass = *rng.pick(&DataClass::ALL);
     let mut data = gen_data::<T>(rng, &shape, dclass, (-100, 100));
+    let broadcast = lanes.iter().product::<usize>() > 1 && rng.chance(0.05);
+    if broadcast {
+        crate::dynapi::equalise_lanes(&mut data, 1);
+    }
     let mut x = x;
     let mut extreme = false;
-    if o.extreme_magnitudes && !use_default_axis && rng.chance(0.15) {
+    if o.extreme_magnitudes && !use_default_axis && !broadcast && rng.chance(0.15) {
         // magnitudes near the ends of the exponent range, chosen so that everything the
         // mathematical result needs (differences, the slope) stays representable
         let smooth = *rng.pick(&AxisClass::SMOOTH);
@@ -343,6 +415,10 @@ pub fn gen_linear_case<T: Flt>(rng: &mut Rng, o: &LinearOpts) -> (Spec1<T>, Labe
     random_layouts1(rng, &mut spec);
     // now and then through the unchecked constructor (the inputs are valid)
     spec.ctor_unchecked = rng.chance(0.12);
+    if broadcast {
+        spec.broadcast_lanes = true;
+        spec.sto = if spec.x.is_none() || rng.chance(0.5) { StoCombo::VO } else { StoCombo::VV };
+    }
     (spec, labels)
 }
 
